@@ -943,6 +943,7 @@ ldb_recover_log_file(ldb_t *db, uint64_t log_number,
   ldb_batch_t batch;
   int compactions = 0;
   ldb_memtable_t *mem = NULL;
+  uint64_t valid_size;
   ldb_reader_t reader;
 
   ldb_mutex_assert_held(&db->mutex);
@@ -1021,6 +1022,8 @@ ldb_recover_log_file(ldb_t *db, uint64_t log_number,
     }
   }
 
+  valid_size = reader.last_end_offset;
+
   ldb_buffer_clear(&buf);
   ldb_batch_clear(&batch);
   ldb_reader_clear(&reader);
@@ -1034,7 +1037,10 @@ ldb_recover_log_file(ldb_t *db, uint64_t log_number,
     assert(db->log == NULL);
     assert(db->mem == NULL);
 
+    /* Only append to a log that was read cleanly to its very end: records
+       written after a torn or damaged tail would be lost on the next open. */
     if (ldb_file_size(fname, &lfile_size) == LDB_OK &&
+        lfile_size == valid_size &&
         ldb_appendfile_create(fname, &db->logfile) == LDB_OK) {
       ldb_log(db->options.info_log, "Reusing old log %s", fname);
 
